@@ -252,7 +252,12 @@ func VerifH_C11_Cycles() {
 		case 1:
 			t += "container top { uses a; } "
 		case 2:
-			t += "leaf top { type a; } "
+			// the leaf that uses the typedef chain may be named in a list's unique statement
+			if vrt.Bool("leaf-named-in-unique") {
+				t += "list top { key k; unique v; leaf k { type string; } leaf v { type a; } } "
+			} else {
+				t += "leaf top { type a; } "
+			}
 		case 3:
 			t += "leaf top { type identityref { base a; } } "
 		case 4:
